@@ -1,19 +1,25 @@
 #!/usr/bin/env python3
 """Confirm a seeded change delivered by a mutation-writing agent and run the property's check on it.
 
-    tools/validate_seeded.py <PID> <dir> [--name NAME] [--skip-suite] [--tier quick|thorough]
+    tools/validate_seeded.py <PID> <dir> [--name NAME] [--skip-suite] [--tier quick|thorough] [--keep]
 
-<dir> holds `wt/` (scratch worktree of /repo with the change applied, or clean) and `out/`
-(patch.diff, demo.rs, meta.json/README.md).  Steps, all outside /repo:
-  1. the patch applies to a clean worktree and the crate builds;
+<dir> holds `out/` (patch.diff, demo.rs, meta.json/README.md) and usually `wt/` (the author's
+scratch worktree; only its base commit is used, then it is removed).  Everything runs in ONE shared
+scratch worktree `/tmp/mutsuite/wt` with a persistent build directory `/tmp/mutsuite/target`
+(incremental rebuilds: a cold build of the ~320 test binaries per change took hours on the loaded
+machine).  Steps, all outside /repo:
+  1. the shared worktree is reset to the change's base commit, the patch applies, the crate builds;
   2. the demonstration FAILS with the change and PASSES without it;
   3. the repository's pinned suite has no stable-pass test failing with the change (tools/suite.sh);
+     tests that fail are re-run alone once (timing assertions flake on a loaded machine);
   4. tools/mutcheck.sh runs the property's check against the changed worktree.
 Result: /verif/seeded/<NAME>/{patch.diff, demo.rs, meta.json, check.log}.
 """
-import json, os, re, shutil, subprocess, sys, time
+import fcntl, json, os, re, shutil, subprocess, sys, time
 
-def sh(cmd, cwd=None, timeout=7200, env=None):
+SH_WT, SH_TARGET = "/tmp/mutsuite/wt", "/tmp/mutsuite/target"
+
+def sh(cmd, cwd=None, timeout=4 * 3600, env=None):
     e = dict(os.environ, CARGO_NET_OFFLINE="true")
     if env: e.update(env)
     p = subprocess.run(cmd, shell=True, cwd=cwd, stdout=subprocess.PIPE, stderr=subprocess.STDOUT,
@@ -25,27 +31,43 @@ def main():
     pid, d = a[0], os.path.abspath(a[1])
     name = a[a.index("--name") + 1] if "--name" in a else os.path.basename(d)
     tier = a[a.index("--tier") + 1] if "--tier" in a else "quick"
-    wt, out = os.path.join(d, "wt"), os.path.join(d, "out")
+    own_wt, out = os.path.join(d, "wt"), os.path.join(d, "out")
     patch = os.path.join(out, "patch.diff")
     res = {"property": pid, "name": name, "validated_at": time.strftime("%Y-%m-%dT%H:%M:%S")}
-    env = {"CARGO_TARGET_DIR": os.path.join(wt, "target")}
-    # 1. clean worktree, apply patch
-    sh("git checkout -- . && git clean -fdq -e target", cwd=wt)
+    env = {"CARGO_TARGET_DIR": SH_TARGET}
+    os.makedirs("/tmp/mutsuite", exist_ok=True)
+    lock = open("/tmp/mutsuite/lock", "w")
+    fcntl.flock(lock, fcntl.LOCK_EX)
+    # base commit of the change = HEAD of the author's worktree (else /repo's HEAD)
+    base = None
+    if os.path.isdir(own_wt):
+        rc, o = sh("git rev-parse HEAD", cwd=own_wt)
+        base = o.strip() if rc == 0 else None
+    if not base:
+        base = sh("git rev-parse HEAD", cwd="/repo")[1].strip()
+    res["base_commit"] = base
+    if not os.path.isdir(SH_WT):
+        sh(f"git -C /repo worktree add --detach {SH_WT} {base}")
+    if not os.path.isdir(SH_TARGET):
+        sh(f"cp -r /repo/target {SH_TARGET}")
+    wt = SH_WT
+    # 1. clean shared worktree at the base commit, apply patch
+    sh(f"git checkout -q -- . && git clean -fdq && git checkout -q --detach {base}", cwd=wt)
     rc, o = sh(f"git apply --check {patch} && git apply {patch}", cwd=wt)
     res["patch_applies"] = rc == 0
     if rc != 0:
         res["error"] = o[-2000:]
-        return finish(res, d, out, name)
+        return finish(res, d, out, name, own_wt)
     res["files_touched"] = sh("git diff --name-only", cwd=wt)[1].split()
     # 2. demonstration both ways
     demo_src = os.path.join(out, "demo.rs")
     demo_dst = os.path.join(wt, "oxidize-pdf-core", "tests", "zz_seeded_demo.rs")
     if os.path.exists(demo_src):
         shutil.copy(demo_src, demo_dst)
-        rc1, o1 = sh("cargo test --offline -p oxidize-pdf --test zz_seeded_demo 2>&1 | tail -40", cwd=wt, env=env)
+        rc1, o1 = sh("cargo test --offline -p oxidize-pdf --test zz_seeded_demo -- --test-threads 1 2>&1 | tail -40", cwd=wt, env=env)
         fails_with = ("test result: FAILED" in o1) or ("panicked" in o1 and "test result: ok" not in o1)
         sh(f"git apply -R {patch}", cwd=wt)
-        rc2, o2 = sh("cargo test --offline -p oxidize-pdf --test zz_seeded_demo 2>&1 | tail -40", cwd=wt, env=env)
+        rc2, o2 = sh("cargo test --offline -p oxidize-pdf --test zz_seeded_demo -- --test-threads 1 2>&1 | tail -40", cwd=wt, env=env)
         passes_without = "test result: ok" in o2 and "test result: FAILED" not in o2
         sh(f"git apply {patch}", cwd=wt)
         os.remove(demo_dst)
@@ -58,23 +80,36 @@ def main():
     # 3. pinned suite
     if "--skip-suite" not in a:
         log = os.path.join(d, "suite.log")
-        rc, o = sh(f"SUITE_LOG={log} sh /verif/tools/suite.sh {wt}", env=env, timeout=3 * 3600)
+        rc, o = sh(f"SUITE_LOG={log} sh /verif/tools/suite.sh {wt}", env=env, timeout=5 * 3600)
         m = re.search(r"STABLE-PASS TESTS FAILING: (\d+)", o)
-        res["suite_stable_pass_failing"] = int(m.group(1)) if m else None
+        failing = [l.split("\t")[1:3] for l in o.splitlines() if l.startswith("RERUN\t")]
+        res["suite_first_pass_failing"] = int(m.group(1)) if m else None
+        still = []
+        for t in failing[:40]:
+            # name is "<binary-id>::<test path>"; re-run it alone (load-induced timing flakes pass then)
+            if len(t) != 2: continue
+            binid, test = t
+            rcx, ox = sh(f"cargo nextest run --workspace --tool-config-file pb:/w/lib/nextest.toml --profile pb --offline "
+                         f"-E 'binary_id(={binid}) & test(={test})' 2>&1 | tail -5", cwd=wt, env=env, timeout=1800)
+            if "1 passed" not in ox:
+                still.append(binid + '::' + test)
+        res["suite_stable_pass_failing"] = (len(still) + max(0, len(failing) - 40)) if m else None
+        res["suite_failing_after_rerun"] = still
         res["suite_tail"] = o[-1500:]
     # 4. the check
     rc, o = sh(f"sh /verif/tools/mutcheck.sh {pid} {wt} {tier}", timeout=3 * 3600)
     res["check_exit"] = rc
-    res["check_lines"] = [l for l in o.splitlines() if "VIOLATION" in l or "KNOWN-FINDING" in l or l.startswith("[check]") or l.startswith("exit=")][-12:]
+    res["check_lines"] = [l[:600] for l in o.splitlines() if "VIOLATION" in l or "KNOWN-FINDING" in l or l.startswith("[check]") or l.startswith("exit=")][-12:]
     res["caught"] = rc == 1 and any("VIOLATION" in l for l in o.splitlines())
     res["caught_with_input"] = res["caught"] and not any("no-failing-input-found" in l for l in o.splitlines() if "VIOLATION" in l)
-    lg = f"/tmp/vmut/results/{os.path.basename(d)}-{pid}.log"
+    lg = f"/tmp/vmut/results/{os.path.basename(wt.rstrip('/').rsplit('/', 1)[0])}-{pid}.log"
     if os.path.exists(lg):
         os.makedirs(f"/verif/seeded/{name}", exist_ok=True)
         shutil.copy(lg, f"/verif/seeded/{name}/check.log")
-    return finish(res, d, out, name)
+    sh(f"git apply -R {patch}", cwd=wt)
+    return finish(res, d, out, name, own_wt)
 
-def finish(res, d, out, name):
+def finish(res, d, out, name, own_wt):
     dst = f"/verif/seeded/{name}"
     os.makedirs(dst, exist_ok=True)
     for f in ("patch.diff", "demo.rs", "README.md"):
@@ -88,10 +123,9 @@ def finish(res, d, out, name):
     meta["validation"] = res
     json.dump(meta, open(os.path.join(dst, "meta.json"), "w"), indent=1)
     print(json.dumps({k: v for k, v in res.items() if not k.endswith("tail") and not k.startswith("demo_tail")}, indent=1))
-    # disk space is limited: the scratch worktree and its build output go as soon as we are done
-    if "--keep" not in sys.argv:
-        wt = os.path.join(d, "wt")
-        subprocess.run(["git", "-C", "/repo", "worktree", "remove", "--force", wt], stdout=subprocess.DEVNULL, stderr=subprocess.DEVNULL)
-        shutil.rmtree(wt, ignore_errors=True)
+    # disk space is limited: the author's scratch worktree and its build output go as soon as we are done
+    if "--keep" not in sys.argv and os.path.isdir(own_wt):
+        subprocess.run(["git", "-C", "/repo", "worktree", "remove", "--force", own_wt], stdout=subprocess.DEVNULL, stderr=subprocess.DEVNULL)
+        shutil.rmtree(own_wt, ignore_errors=True)
 
 main()
